@@ -160,7 +160,8 @@ func DataURI(dataURI []byte) ([]byte, []byte, error) {
 		for j := 0; j < len(dataURI); j++ {
 			c := dataURI[j]
 			if c == '=' || c == ';' || c == ',' {
-				if c != '=' && bytes.Equal(TrimWhitespace(dataURI[i:j]), base64Bytes) {
+				if c != '=' && 0 < i && dataURI[i-1] == ';' && bytes.Equal(TrimWhitespace(dataURI[i:j]), base64Bytes) {
+					// ;base64 (and not the value of a parameter, as in ;name=base64)
 					if len(mediatype) > 0 {
 						mediatype = mediatype[:len(mediatype)-1]
 					}
